@@ -785,7 +785,7 @@ def run(run, model):
     from rules import c08
     run.try_rule(c08.r08_1, model)
     from rules import c07
-    for fn_ in (c19.r19_1, c19.r19_2, c19.r19_3, c19.r19_4, (lambda r, m: c07.r07_2(r, m, None, "C02")), c08.r08_2, c08.r08_3):
+    for fn_ in (c19.r19_1, c19.r19_2, c19.r19_3, c19.r19_15, c19.r19_16, c19.r19_4, (lambda r, m: c07.r07_2(r, m, None, "C02")), c08.r08_2, c08.r08_3):
         run.try_rule(fn_, model)
     run.rule("R02.7", "Go type declarations are collected through every type former: the runtime-type collector is a structural traversal of Ty "
                       "that handles every child-carrying former (shared audit with C07 R07.2)")
